@@ -758,3 +758,16 @@ M("c15-slots-in-set-order-again", ["C15"], CO,
   [("C15", "C15-R1d", "_emit:message")], note="fix cceea8f reverted for locals: the slot number printed by the too-large error depends on the hash seed again")
 T("t-c15-sorted-with-key", ["C15", "C05"], CO,
   "        for var in sorted(local_vars_set):", "        for var in sorted(local_vars_set, key=str):")
+M("c13-lexer-unicode-digits", ["C13", "C04"], LX,
+  "        while self._current() and _is_digit(self._current()):\n            self._advance()\n\n        # Decimal point",
+  "        while self._current() and self._current().isdigit():\n            self._advance()\n\n        # Decimal point",
+  [("C13", "C13-R6", "_read_number"), ("C04", "C04-R7", "_read_number")], note="fix 0f614d1 reverted at one scanner loop")
+M("c18-parsefloat-unicode-digits", ["C18"], CX,
+  "                if \"0\" <= s[i] <= \"9\":", "                if s[i].isdigit():",
+  [("C18", "C18-R5", "parseFloat_fn")], note="fix 0f614d1 reverted in Number.parseFloat")
+M("c08-index-by-int-only", ["C08", "C17"], VM,
+  "        if isinstance(obj, str):\n            # String character access\n            idx = array_index(key_str)\n            if idx is not None and idx < len(obj):\n                return obj[idx]\n",
+  "        if isinstance(obj, str):\n            # String character access\n            try:\n                idx = int(key_str)\n                if 0 <= idx < len(obj):\n                    return obj[idx]\n            except ValueError:\n                pass\n",
+  [("C08", "C08-R10", "int"), ("C17", "C17-R11", "int")], note="fix cd3a517 reverted for string element reads")
+T("t-c13-digit-helper-inline", ["C13", "C04", "C10"], LX,
+  "    return len(ch) == 1 and \"0\" <= ch <= \"9\"", "    return len(ch) == 1 and ch in \"0123456789\"")
